@@ -5,7 +5,7 @@ from lift import Ent
 from pos import PosSim, Node
 from report import Violation
 from rules_seq import V, method_segments, site_of_seg, first_site, found_expired, where_of, same_ent, TTL_CACHES, actual_class
-from symex import show
+from symex import show, show_site
 
 USE_POS = {'lru_cache': 'FRONT', 'tlru_cache': 'FRONT', 'utlru_cache': 'FRONT', 'mru_cache': 'LAST_USED',
            'lfuda_cache': 'LAST_USED', 'fifo_cache': None, 'lfu_cache': None}
@@ -121,6 +121,18 @@ def single_node_list(seg, roles):
     return False
 
 
+def carried_destination(b, moves):
+    """is the destination of a splice in this range-loop body the value of a local variable that the loop carries across iterations?"""
+    lp = b.in_loop
+    if lp is None or getattr(lp, 'kind', None) != 'range':
+        return False
+    for mv in moves:
+        d = getattr(mv, 'dest', None)
+        if isinstance(d, tuple) and d[:1] == ('lv',) and len(d) > 2 and d[2] == lp.id:
+            return True
+    return False
+
+
 def check_body(res, prop, cm, roles, m, k, b):
     seg = b.seg
     case = body_case(cm, roles, k, b)
@@ -129,6 +141,14 @@ def check_body(res, prop, cm, roles, m, k, b):
         return          # the path's own position tests contradict each other: it cannot be taken
     val = ' '.join(seg.valuation())
     moves = seg.effs('MOVE')
+    if carried_destination(b, moves):
+        # `auto front = l.begin(); for (key : range) { l.splice(front, l, pos); front = pos; }`: where the destination is depends on
+        # what earlier iterations stored in the variable - an invariant of the loop the one-iteration summary does not establish
+        msg = ('G-UNKNOWN splice destination held in an iterator variable that is carried from one range element to the next '
+               '(a loop invariant about that variable would be needed) in %s reached from %s::%s' % (show_site(moves[0].site), cm.name, m.key()))
+        if msg not in res.incomplete:
+            res.incomplete.append(msg)
+        return
     res.sample(dict(container=cm.name, method=b.where, case=case, valuation=val, final_list=sim.show()), cap=12)
     # generic: position-model problems (partition corruption, claims, splice forms)
     for code, msg, site in sim.problems:
